@@ -119,6 +119,7 @@ type Client struct {
 	futureStore   *future.Store
 	connectFuture *future.Future
 	tomb          tomb.Tomb
+	processing    bool
 	mutex         sync.Mutex
 	finish        sync.Once
 }
@@ -234,6 +235,7 @@ func (c *Client) Connect(config *Config) (ConnectFuture, error) {
 	}
 
 	// start process routine
+	c.processing = true
 	c.tomb.Go(c.processor)
 
 	// wrap future
@@ -807,9 +809,11 @@ func (c *Client) end(err error, possiblyClosed bool) error {
 	// close connection
 	err = c.cleanup(err, true, possiblyClosed)
 
-	// shutdown goroutines
+	// shutdown goroutines (none have been started if connect failed early)
 	c.tomb.Kill(nil)
-	_ = c.tomb.Wait()
+	if c.processing {
+		_ = c.tomb.Wait()
+	}
 
 	return err
 }
